@@ -72,7 +72,11 @@ def build_problem(case):
                                       regions=False, max_rings=5,
                                       conv_approx=False,
                                       n_duct=wl.choose(rng, [1, 1, 2]),
-                                      vel=wl.loguniform(rng, 0.3, 6.0))
+                                      vel=wl.loguniform(rng, 0.3, 6.0),
+                                      byp=wl.loguniform(rng, 0.01, 0.25))
+        # a stagnant bypass gap makes the solution itself depend on dz to
+        # first order (C02, finding F11), which is not the property lag
+        # this refinement measures: the gap flows in these cases
     else:
         P, feats = wl.core_problem(rng, n_ring=(3 if case.get('big') else 2),
                                    tdep=(rng.random() < 0.3),
